@@ -41,12 +41,12 @@ PROPS = {
         "the converse (a funded purchase meeting the conditions is accepted) is proved for purchases whose fee or stake does not truncate to zero (amount x rate >= 1 unit); with the default minimum purchase of 50 CTK this always holds; below it the module answers ErrNoShield"]),
     "C07": dict(SHIELD, lean=["Shentu.Props.C07", "Shentu.Props.ShieldTie"]),
     "C08": {
-        "lean": ["Shentu.Props.C08"],
+        "lean": ["Shentu.Props.C08", "Shentu.Props.C04b"],
         "engines": [chain("shield", 96, 960, ops=240, tops=400), chain("oracle", 48, 480, ops=120), chain("gov", 48, 480, ops=120), chain("staking", 32, 320, ops=150), chain("bankvm", 32, 320, ops=100)],
         "trusted": SDK_TRUST + ["a panic inside BeginBlock/EndBlock of the real application is caught by the harness (recover) and reported with its site; the begin/end-blockers of SDK modules (distribution, mint, slashing, staking) run for real in every history but are not modelled",
                                 "in the models a Go panic is the error value built by `panicE`; the theorems show that the modelled block-level functions return no error on states satisfying invariants that are proved to be preserved by every operation"],
         "assumptions": ["oracle parameters epsilon1, epsilon2 > 0 (a zero epsilon divides by zero for a score of 0 or 100; parameter validation does not exclude it)", "shield protection period > 0 (validated by the module)",
-                        "claim payouts: totality of the payout is proved under a feasibility condition on the provider snapshot that is not an invariant (collateral can leave while a claim is open when blocks are far apart); since the repair a47d31f a payout that panics fails the proposal instead of halting the chain, which is what the histories exercise",
+                        "claim payouts, at the staking level: the payout function panics ('exact pay out was not made from unbondings') exactly when the provider's bonded and unbonding stake does not cover purchased + payout, and otherwise succeeds (C04b.makePayout_exact, makePayout_uncovered_panics)", "claim payouts: totality of the payout is proved under a feasibility condition on the provider snapshot that is not an invariant (collateral can leave while a claim is open when blocks are far apart); since the repair a47d31f a payout that panics fails the proposal instead of halting the chain, which is what the histories exercise",
                         "block-time gaps up to ten protection periods, parameters as drawn by the profile generators"],
     },
     "C09": {
